@@ -57,10 +57,14 @@ class Number(NumericElement[float]):
 
     def construct(self, value, _property):  # pylint: disable=no-self-use
         try:
-            return float(value)
+            converted = float(value)
         except OverflowError:
             # Integers beyond the range of a float have no equal float.
             return value
+        if converted == value:
+            return converted
+        # Nor do integers which a float can only approximate.
+        return value
 
     @property
     def type_validator(self):
